@@ -2139,8 +2139,23 @@ static int dfs_copy(vnaproperty_t **destination, const vnaproperty_t *source)
  */
 int vnaproperty_copy(vnaproperty_t **destination, const vnaproperty_t *source)
 {
+    vnaproperty_t *copy = NULL;
+
+    /*
+     * Build the copy first: the source may be the destination itself
+     * or a subtree of it, and a failed copy must not destroy the
+     * destination's previous content.
+     */
+    if (dfs_copy(&copy, source) == -1) {
+	int saved_errno = errno;
+
+	(void)vnaproperty_delete(&copy, ".");
+	errno = saved_errno;
+	return -1;
+    }
     (void)vnaproperty_delete(destination, ".");
-    return dfs_copy(destination, source);
+    *destination = copy;
+    return 0;
 }
 
 
